@@ -125,11 +125,11 @@ func allFieldsOf(res jsonapi.Resource) ([]string, map[string][]string) {
 // apply performs op; applicable=false when the op makes no sense on the real
 // object (for instance MutSlice on a field whose real kind is not a slice).
 func (w *rWorld) apply(op rOp) (ret string, applicable bool) {
-	if op.Op != "New" && (op.H < 1 || op.H > len(w.objs)) {
+	if op.Op != "New" && op.Op != "ZeroNew" && (op.H < 1 || op.H > len(w.objs)) {
 		return "", false
 	}
 	var o rObj
-	if op.Op != "New" {
+	if op.Op != "New" && op.Op != "ZeroNew" {
 		o = w.objs[op.H-1]
 		needRes := op.Op != "AddField" && op.Op != "RemoveField"
 		if needRes && o.impl == "type" {
@@ -161,6 +161,11 @@ func (w *rWorld) apply(op rOp) (ret string, applicable bool) {
 				}
 			}
 			w.objs = append(w.objs, rObj{impl: op.Impl, res: res})
+		case "ZeroNew":
+			// the zero value of the Go type, asked for a new resource before any other method has run
+			z := &jsonapi.SoftResource{}
+			nw := z.New()
+			w.objs = append(w.objs, rObj{impl: "soft", res: z}, rObj{impl: implOf(nw, "soft"), res: nw})
 		case "Set":
 			defs := projDefs(o.res.Attrs(), o.res.Rels(), w.km)
 			d, ok := defs[op.F]
@@ -421,9 +426,15 @@ func runResourceCase(c rCase) (ev rEvent, ok bool) {
 		return ev, true
 	}
 	w := &rWorld{km: km, tb: tb, noFrom: c.Var.NoFrom, built: c.Var.Built}
-	for _, op := range c.Hist {
-		if _, app := w.apply(op); !app {
+	for i, op := range c.Hist {
+		ret, app := w.apply(op)
+		if !app {
 			return ev, false // the history itself is not realisable under this variant
+		}
+		if ret != "ok" {
+			// a call of the history does not go the way the model says every call goes: that call is
+			// the one to judge (the event is the one of the shorter case; a replay gets here again)
+			return runResourceCase(rCase{Fam: c.Fam, Kind: c.Kind, Hist: c.Hist[:i], Op: op, Var: c.Var, Seed: c.Seed})
 		}
 	}
 	ev = rEvent{Ev: "step", Op: c.Op, A: zero, B: zero}
